@@ -92,6 +92,30 @@ pub open spec fn keep<T>(s: Seq<T>, del: Set<int>) -> Seq<T>
     }
 }
 
+/// entry k of the summary applies under valuation x
+pub open spec fn hit<V: Value>(gc: &GuardCtx, s: Seq<Entry<V>>, x: int, k: int) -> bool {
+    0 <= k < s.len() && gc.holds(s[k].guard, x)
+}
+
+/// an entry that applies under x
+pub open spec fn pick<V: Value>(gc: &GuardCtx, s: Seq<Entry<V>>, x: int) -> int {
+    choose|k: int| hit(gc, s, x, k)
+}
+
+/// C20: the summary denotes a TOTAL FUNCTION — under every valuation of the guard terminals exactly one entry applies
+/// (the guards are pairwise disjoint and jointly exhaustive); its value under x is `s[pick(gc, s, x)].value`
+pub open spec fn partition<V: Value>(gc: &GuardCtx, s: Seq<Entry<V>>) -> bool {
+    forall|x: int| #![trigger pick(gc, s, x)] hit(gc, s, x, pick(gc, s, x)) && (forall|j: int| #[trigger] hit(gc, s, x, j) ==> j == pick(gc, s, x))
+}
+
+/// the positions of a delete list, as a set
+pub open spec fn del_set(dl: Seq<usize>) -> Set<int> { dl.map_values(|i: usize| i as int).to_set() }
+
+/// position k has been scheduled for deletion
+pub open spec fn dead(dl: Seq<usize>, k: int) -> bool {
+    exists|i: int| 0 <= i < dl.len() && #[trigger] dl[i] == k
+}
+
 pub open spec fn all_below(s: Seq<usize>, b: int) -> bool {
     forall|i: int| 0 <= i < s.len() ==> (#[trigger] s[i]) < b
 }
